@@ -9,6 +9,11 @@ structure Prims.Lawful (P : Prims) : Prop extends Prims.Defined P where
   /-- `ops::contains` returns `Value::from(bool)` -/
   contains_bool : ∀ a b v, P.contains a b = .ok v → ∃ t, v = .bool t
 
+theorem gate_some {α : Type} {b : Bool} {x : Option α} {v : α} (h : gate b x = some v) : x = some v := by
+  unfold gate at h; split at h
+  · exact h
+  · cases h
+
 theorem toOpt_some {α : Type} {x : Except Err α} {a : α} (h : Except.toOpt x = some a) : x = .ok a := by
   cases x <;> simp [Except.toOpt] at h; subst h; rfl
 
@@ -102,25 +107,25 @@ theorem asConst_defined (hP : P.Lawful) : ∀ (e : Expr) (v : V), e.WF → asCon
   | .const c, v, hw, h => by simp [asConst] at h; subst h; simpa [Expr.WF] using hw
   | .var _, v, _, h => by simp [asConst] at h
   | .list items, v, _, h => by
-    simp only [asConst, Option.map_eq_some_iff] at h; obtain ⟨_, _, rfl⟩ := h; simp
+    rw [asConst] at h; replace h := gate_some h; simp only [Option.map_eq_some_iff] at h; obtain ⟨_, _, rfl⟩ := h; simp
   | .tuple items, v, _, h => by
-    simp only [asConst, Option.map_eq_some_iff] at h; obtain ⟨_, _, rfl⟩ := h; simp
+    rw [asConst] at h; replace h := gate_some h; simp only [Option.map_eq_some_iff] at h; obtain ⟨_, _, rfl⟩ := h; simp
   | .map kvs, v, _, h => by
-    simp only [asConst, Option.map_eq_some_iff] at h; obtain ⟨_, _, rfl⟩ := h; exact hP.mkMap _
+    rw [asConst] at h; replace h := gate_some h; simp only [Option.map_eq_some_iff] at h; obtain ⟨_, _, rfl⟩ := h; exact hP.mkMap _
   | .not e, v, _, h => by
-    simp only [asConst, Option.map_eq_some_iff] at h; obtain ⟨_, _, rfl⟩ := h; simp
+    rw [asConst] at h; replace h := gate_some h; simp only [Option.map_eq_some_iff] at h; obtain ⟨_, _, rfl⟩ := h; simp
   | .neg e, v, _, h => by
-    simp only [asConst, Option.bind_eq_some_iff] at h; obtain ⟨a, _, h⟩ := h
+    rw [asConst] at h; replace h := gate_some h; simp only [Option.bind_eq_some_iff] at h; obtain ⟨a, _, h⟩ := h
     exact hP.neg _ _ (toOpt_some h)
   | .bin op l r, v, hw, h => by
     simp only [Expr.WF] at hw
-    rw [asConst] at h
+    rw [asConst] at h; replace h := gate_some h
     split at h
     · next a b hl hr =>
       exact evalBinop_defined hP op (asConst_defined hP l a hw.1 hl) (asConst_defined hP r b hw.2 hr) h
     · simp at h
   | .cmp e ops, v, _, h => by
-    rw [asConst] at h
+    rw [asConst] at h; replace h := gate_some h
     split at h
     · obtain ⟨t, rfl⟩ := asConstChain_bool P ops _ v h; simp
     · simp at h
@@ -182,25 +187,25 @@ mutual
     | .const c, v, _, h => by simp [asConst] at h; subst h; simp [evalRt]
     | .var _, v, _, h => by simp [asConst] at h
     | .list items, v, _, h => by
-      simp only [asConst, Option.map_eq_some_iff] at h; obtain ⟨vs, hvs, rfl⟩ := h
+      rw [asConst] at h; replace h := gate_some h; simp only [Option.map_eq_some_iff] at h; obtain ⟨vs, hvs, rfl⟩ := h
       simp [evalRt, constValues_sound P m ρ items vs hvs]
     | .tuple items, v, _, h => by
-      simp only [asConst, Option.map_eq_some_iff] at h; obtain ⟨vs, hvs, rfl⟩ := h
+      rw [asConst] at h; replace h := gate_some h; simp only [Option.map_eq_some_iff] at h; obtain ⟨vs, hvs, rfl⟩ := h
       simp [evalRt, constValues_sound P m ρ items vs hvs]
     | .map kvs, v, _, h => by
-      simp only [asConst, Option.map_eq_some_iff] at h; obtain ⟨vs, hvs, rfl⟩ := h
+      rw [asConst] at h; replace h := gate_some h; simp only [Option.map_eq_some_iff] at h; obtain ⟨vs, hvs, rfl⟩ := h
       simp [evalRt, constPairs_sound P m ρ kvs vs hvs]
     | .not e, v, hw, h => by
       simp only [Expr.WF] at hw
-      simp only [asConst, Option.map_eq_some_iff] at h; obtain ⟨a, ha, rfl⟩ := h
+      rw [asConst] at h; replace h := gate_some h; simp only [Option.map_eq_some_iff] at h; obtain ⟨a, ha, rfl⟩ := h
       simp [evalRt, asConst_sound' hP e a hw ha, notInstr_ok P m (asConst_defined hP e a hw ha)]
     | .neg e, v, hw, h => by
       simp only [Expr.WF] at hw
-      simp only [asConst, Option.bind_eq_some_iff] at h; obtain ⟨a, ha, h⟩ := h
+      rw [asConst] at h; replace h := gate_some h; simp only [Option.bind_eq_some_iff] at h; obtain ⟨a, ha, h⟩ := h
       simp [evalRt, asConst_sound' hP e a hw ha, toOpt_some h]
     | .bin op l r, v, hw, h => by
       simp only [Expr.WF] at hw
-      rw [asConst] at h
+      rw [asConst] at h; replace h := gate_some h
       split at h
       · next a b hl hr =>
         have ha := asConst_defined hP l a hw.1 hl
@@ -222,7 +227,7 @@ mutual
       · simp at h
     | .cmp e ops, v, hw, h => by
       simp only [Expr.WF] at hw
-      rw [asConst] at h
+      rw [asConst] at h; replace h := gate_some h
       split at h
       · next left hl =>
         simp only [evalRt, asConst_sound' hP e left hw.1 hl]
@@ -261,7 +266,7 @@ theorem folded_eq (hP : P.Lawful) (e : Expr) (hw : e.WF) (rt : Except Err V) (h 
     folded P e rt = evalRt P m ρ e := by
   unfold folded
   split
-  · next v hv => exact (asConst_sound' m ρ hP e v hw hv).symm
+  · next v hv => exact (asConst_sound' m ρ hP e v hw (gate_some hv)).symm
   · exact h
 
 mutual
@@ -291,11 +296,13 @@ mutual
       cases e
       case const c =>
         rw [evalC]; apply folded_eq m ρ hP _ hw
-        cases h : P.neg c <;> simp [Except.toOpt, evalRt, evalC, h]
+        cases hs : P.codegenSpecial "neg-const-shortcut" <;>
+          cases h : P.neg c <;> simp [Except.toOpt, evalRt, evalC, h, gate]
       all_goals
         rw [evalC] <;> try (intro c h; cases h; done)
         apply folded_eq m ρ hP _ hw
         rw [evalRt, ih]
+        cases hs : P.codegenSpecial "neg-const-shortcut" <;> simp [gate]
     | .bin op l r, hw => by
       have hw' := hw
       simp only [Expr.WF] at hw'
@@ -334,7 +341,7 @@ mutual
       · split
         · rfl
         · split
-          · next ks hk => rw [constKws_sound P m ρ kws ks hk]
+          · next ks hk => rw [constKws_sound P m ρ kws ks (gate_some hk)]
           · rw [evalCKws_eq' hP kws hw.2.2]
     | .test name e pos kws, hw => by
       simp only [Expr.WF] at hw
@@ -344,7 +351,7 @@ mutual
       · split
         · rfl
         · split
-          · next ks hk => rw [constKws_sound P m ρ kws ks hk]
+          · next ks hk => rw [constKws_sound P m ρ kws ks (gate_some hk)]
           · rw [evalCKws_eq' hP kws hw.2.2]
     | .call name pos kws, hw => by
       simp only [Expr.WF] at hw
@@ -352,7 +359,7 @@ mutual
       split
       · rfl
       · split
-        · next ks hk => rw [constKws_sound P m ρ kws ks hk]
+        · next ks hk => rw [constKws_sound P m ρ kws ks (gate_some hk)]
         · rw [evalCKws_eq' hP kws hw.2]
   theorem evalCOpt_eq' (hP : P.Lawful) : ∀ (o : OptExpr) (d : V), o.WF → evalCOpt P m ρ d o = evalRtOpt P m ρ d o
     | .none, _, _ => by simp [evalCOpt, evalRtOpt]
